@@ -79,6 +79,21 @@ class C12(RunProp):
             m = _c10.PROP._map_case(rng, force="raise-multi", bounded=True)
             yield {"kind": "map", "program": m["program"], "values": m["values"], "mapOver": m["mapOver"], "mode": m["mode"], "mapErr": "raise", "cfg": {}, "runner": "async",
                    "seed": rng.randint(0, 10**6), "yielding": rng.choice([True, True, "syncmethods"]), "k": rng.choice([2, 3])}
+        # whatever the seed: a value whose comparison RAISES is written a second time (two ordered producers of one name): the framework's own
+        # bookkeeping fails after the node completed — whatever the run then reports, every span is closed exactly once
+        for runner in ("sync", "async"):
+            fnn = gen._fn_node
+            nodes = [fnn("p1", [["x", None]], ["h"], {"b": "const", "v": {"badeq": 1}}, emits=["d1"]),
+                     fnn("p2", [["x", None]], ["h"], {"b": "const", "v": {"badeq": 2}}, waitFor=["d1"]),
+                     fnn("side", [["x", None]], ["s"], {"b": "tag", "t": "side"})]
+            rng.shuffle(nodes)
+            yield {"kind": "run", "program": [{"name": "g0", "nodes": nodes, "bound": []}], "values": [["x", 1]], "cfg": {"errMode": rng.choice(["raise", "continue"])},
+                   "runner": runner, "seed": rng.randint(0, 10**6), "yielding": False, "pyOnly": True}
+        # whatever the seed: ONE processor object kept across top-level calls (run, run again, map): each call shuts it down exactly once
+        for mk in (lambda: gen.gen_dag_program(rng, max_nodes=5, depth=1), lambda: gen.gen_failing_dag(rng), lambda: gen.gen_gated_cfg(rng)):
+            c = mk()
+            for runner in ("sync", "async"):
+                yield {"kind": "run", "program": c["program"], "values": c["values"], "cfg": c.get("cfg", {}), "runner": runner, "seed": rng.randint(0, 10**6), "yielding": "kept"}
         forced_bad = 3      # whatever the seed: cacheable nodes on a backend whose LOOKUP raises after a few answers
         while True:
             c = rng.choice(gens)()
@@ -146,6 +161,8 @@ class C12(RunProp):
         return super().request(case)
 
     def model(self, case: dict, driver: Any) -> Any:
+        if case.get("pyOnly"):
+            return None
         if case.get("rejected"):
             if case["kind"] != "map" or "onMissing" in case["cfg"]:
                 return None      # an on_missing value outside the enumeration has no counterpart in the model (it is an enum there)
@@ -158,6 +175,8 @@ class C12(RunProp):
         return impl.model_obs(r)
 
     def compare(self, case: dict, i: Any, m: Any) -> str | None:
+        if case.get("pyOnly"):
+            return None
         if case.get("rejected"):
             if m is None:
                 return None      # judged by the oracle alone
